@@ -108,18 +108,21 @@ def render(markup: str, style: Union[str, Style] = "", emoji: bool = True) -> Te
     append = text.append
     normalize = Style.normalize
 
-    style_stack: List[Tuple[int, Tag]] = []
+    # Each open tag remembers the order it was opened in, so that spans can be
+    # sorted in opening order (later tags take precedence when rendered).
+    style_stack: List[Tuple[int, Tag, int]] = []
     pop = style_stack.pop
 
-    spans: List[Span] = []
+    spans: List[Tuple[int, Span]] = []
     append_span = spans.append
+    open_count = 0
 
     _Span = Span
     _Tag = Tag
 
-    def pop_style(style_name: str) -> Tuple[int, Tag]:
+    def pop_style(style_name: str) -> Tuple[int, Tag, int]:
         """Pop tag matching given style name."""
-        for index, (_, tag) in enumerate(reversed(style_stack), 1):
+        for index, (_, tag, _) in enumerate(reversed(style_stack), 1):
             if tag.name == style_name:
                 return pop(-index)
         raise KeyError(style_name)
@@ -133,30 +136,31 @@ def render(markup: str, style: Union[str, Style] = "", emoji: bool = True) -> Te
                 if style_name:  # explicit close
                     style_name = normalize(style_name)
                     try:
-                        start, open_tag = pop_style(style_name)
+                        start, open_tag, order = pop_style(style_name)
                     except KeyError:
                         raise MarkupError(
                             f"closing tag '{tag.markup}' at position {position} doesn't match any open tag"
                         ) from None
                 else:  # implicit close
                     try:
-                        start, open_tag = pop()
+                        start, open_tag, order = pop()
                     except IndexError:
                         raise MarkupError(
                             f"closing tag '[/]' at position {position} has nothing to close"
                         ) from None
 
-                append_span(_Span(start, len(text), str(open_tag)))
+                append_span((order, _Span(start, len(text), str(open_tag))))
             else:  # Opening tag
                 normalized_tag = _Tag(normalize(tag.name), tag.parameters)
-                style_stack.append((len(text), normalized_tag))
+                style_stack.append((len(text), normalized_tag, open_count))
+                open_count += 1
 
     text_length = len(text)
     while style_stack:
-        start, tag = style_stack.pop()
-        append_span(_Span(start, text_length, str(tag)))
+        start, tag, order = style_stack.pop()
+        append_span((order, _Span(start, text_length, str(tag))))
 
-    text.spans = sorted(spans)
+    text.spans = [span for _, span in sorted(spans)]
     return text
 
 
